@@ -33,6 +33,18 @@ def units(tier, seed=0):
         us += famcheck.family_units(fams, [7], T, only=light, tag='/operands', reg_values='distinct', it='none')
     else:
         us += famcheck.family_units(fams, [7], T, only=[n for n in rows if ISA[n].family != 'blk'], tag='/operands')
+    # decode may depend on processor state only through the CURRENT IT state and carry flag: the same concrete
+    # encoding is first run from a state with unrelated flags / IT state, the snapshot re-installed, and the step must
+    # decode (set-flags from InITBlock(), ThumbExpandImm_C carry) as the tables say for the current state
+    PRE = [('AddImmediateThumbT2', {'Rdn': 1, 'imm8': 1}), ('MovImmediateT1', {'Rd': 0, 'imm8': 0}),
+           ('LslImmediateT1', {'imm5': 3, 'Rm': 1, 'Rd': 2}),
+           ('AndImmediateT1', {'i': 0, 'S': 1, 'Rn': 1, 'imm3': 0, 'Rd': 2, 'imm8': 0x55}),
+           ('MovImmediateT2', {'i': 0, 'S': 1, 'imm3': 0, 'Rd': 1, 'imm8': 0x42}),
+           ('AndRegisterT2', {'S': 1, 'Rn': 2, '_sb0': 0, 'imm3': 0, 'Rd': 3, 'imm2': 0, 'type': 0, 'Rm': 4})]
+    for r, fx in PRE:
+        if r in ISA:
+            us += famcheck.family_units({ISA[r].family}, [7], T, only=[r], tag='/prehistory-same-iset',
+                                        prehistory='same-iset', fix=dict(fx))
     from spec import isa_blk
     for n in rows:
         if ISA[n].family == 'blk':
@@ -60,6 +72,7 @@ META = {
                    'hw1[15:11] only. Operand extraction incl. ThumbExpandImm is covered by the functional rows '
                    '(C01-C04, C09, C12) and the C17 lemma.',
     'bounds': ['exhaustive over all 16-bit and 32-bit Thumb words within the table coverage'],
+    'bounds_history': ['history independence of decode: 6 concrete Thumb encodings whose decode reads InITBlock() / the carry, each first executed from unrelated flags and IT state'],
     'bounds_rows': ['quick: operand rows run outside IT blocks with a fixed register file of pairwise distinct values (instruction word, flags, mode, memory symbolic); thorough: registers and ITSTATE symbolic'],
     'outside': ['VFP / Advanced SIMD spaces', 'UNPREDICTABLE forms'],
     'stubs': stubs.STUBS_DOC,
